@@ -108,6 +108,35 @@ CHECKS = {
              note="Trusted: Lean kernel (propext, Classical.choice, Quot.sound), generated enum tables, CPython int()/decode/round as modelled.",
              tech="Lean 4 proof (field windows over arbitrary backgrounds) + differential correspondence + Spec expectations",
              ref="§7 C08"),
+ "C10": dict(text="Lean theorems: empty/short replies give no schedules; record_decodes: every well-formed 16-byte record parses to exactly "
+                  "its id, recurrence flag, day set, local start/end (HH:MM shown by ANY zone table), their duration (C14) and the "
+                  "next-run text (C13); list_decodes: a reply of ANY number of whole records yields the first record per distinct slot id "
+                  "(ids pairwise distinct); create_reads_back: for every zone table, instant, pair of existing minutes and day set, "
+                  "whatever instants mktime picks, the emitted record listed back parses to the same start, end and days. "
+                  "Correspondence under 8 host zones incl. DST-change days, Spec judges per field, and a real create->list-back loop.",
+             note="Trusted: Lean kernel (propext, Classical.choice, Quot.sound), zone tables exported from zoneinfo, textwrap.wrap/"
+                  "localtime/strftime as modelled, a device lists back mask/start/end unchanged.",
+             tech="Lean 4 proof (zone-table arithmetic by omega, induction over records) + correspondence under real zones",
+             ref="§7 C10"),
+ "C11": dict(text="Lean theorems for ANY zone table and ANY instant: mktime is a relation (all instants showing the wall time); every "
+                  "possible encoding of an existing HH:MM is the LE32 of an instant showing HH:MM today (encode_is_epoch, candidate set "
+                  "complete), decoding any of them returns the same HH:MM (decode_encode, roundtrip by omega); malformed text raises, "
+                  "with the accepted language characterised exactly (known finding F8: leading blanks, extra ':' fields). "
+                  "Correspondence: 18 zones x instants around every 2024-26 transition x minutes; real results must be model candidates.",
+             note="Trusted: Lean kernel (propext, Classical.choice, Quot.sound), zone tables exported from zoneinfo over +-3 days, "
+                  "strftime/strptime/mktime/localtime as modelled; gap times only 'does not raise'. KNOWN-FINDING F8 printed, exit 0.",
+             tech="Lean 4 proof over arbitrary zone tables (relational mktime) + correspondence under TZ/time_machine",
+             ref="§7 C11"),
+ "C13": dict(text="Lean theorems: the decision core is verified for all 7 weekdays x 127 day sets x both time orders by kernel evaluation "
+                  "against the declarative Spec.IsEarliest (minimal distance to the next occurrence); lifted to EVERY local instant, "
+                  "start minute and day set: the text is the rendering of an earliest run (next_run_earliest), the named weekday is "
+                  "selected, 'today' only if today is selected and the start is ahead, no days => today; the text depends on the times only "
+                  "through 'start still ahead' and on the date only through the weekday. Correspondence under 8 zones incl. instants where "
+                  "local and UTC weekday differ.",
+             note="Trusted: Lean kernel (propext, Classical.choice, Quot.sound), generated Days table, datetime.now/strptime as modelled; "
+                  "a set of days is represented by its sorted members.",
+             tech="Lean 4 proof (`decide +kernel` over the finite decision domain, lifted by arithmetic lemmas) + correspondence",
+             ref="§7 C13"),
 }
 NOT_YET = "check not built yet in this revision (work in progress; see DESIGN.md Appendix B)"
 m = {
